@@ -304,6 +304,21 @@ func gen(tier, prop string, out *vlib.Out) {
 			out.Line("new burst prop=C11 id=0 %s reps=%d seed=%d", cfg, reps, rd.Intn(1000000))
 		}
 	}
+	if prop == "C10" {
+		iters := 450
+		if tier == "thorough" {
+			iters = 4500
+		}
+		for _, cfg := range []string{
+			"init=1 q=8 core=2 max=- rate=- idle=300000 ord=cmr jlo=-60 jhi=200",
+			"init=1 q=8 core=- max=2 rate=- idle=200000 ord=cmr jlo=-40 jhi=150",
+			"init=1 q=4 core=2 max=3 rate=- idle=400000 ord=cmr jlo=-80 jhi=250",
+			"init=2 q=8 core=3 max=- rate=0 idle=300000 ord=cmr jlo=-60 jhi=200",
+			"init=1 q=8 core=2 max=- rate=- idle=150000 ord=cmr jlo=-30 jhi=120",
+		} {
+			out.Line("new idlesub prop=C10 id=0 %s iters=%d patience=100 seed=%d", cfg, iters, rd.Intn(1000000))
+		}
+	}
 	if prop == "C12" {
 		rounds := 60
 		if tier == "thorough" {
